@@ -842,6 +842,44 @@ func editFloatLit(p *parsed, site int) (string, int) {
 	return desc, done
 }
 
+// E14: an integer literal outside the small range (also beyond int64: uint64 masks) is changed by
+// a small amount. Under the default policy such literals are abstracted (a literal-only edit of a
+// documented kind); with all literals kept the two functions must differ.
+func editLargeInt(p *parsed, site int) (string, int) {
+	n, done := 0, 0
+	desc := ""
+	ast.Inspect(p.fn, func(nd ast.Node) bool {
+		l, ok := nd.(*ast.BasicLit)
+		if !ok || l.Kind != token.INT {
+			return true
+		}
+		nv := ""
+		if v, err := strconv.ParseInt(l.Value, 0, 64); err == nil {
+			if v >= -16 && v <= 16 {
+				return true
+			}
+			nv = strconv.FormatInt(v+1, 10)
+		} else if u, uerr := strconv.ParseUint(l.Value, 0, 64); uerr == nil {
+			nv = fmt.Sprintf("%#x", u-1)
+		} else {
+			return true
+		}
+		if site == -1 || n == site {
+			if desc == "" {
+				desc = fmt.Sprintf("large integer literal %s -> %s", l.Value, nv)
+			}
+			l.Value = nv
+			done++
+		}
+		n++
+		return true
+	})
+	if site >= n {
+		return "", 0
+	}
+	return desc, done
+}
+
 // E12: the type named in an integer conversion is replaced by the next wider one (a
 // "constant-type"/width edit: the value wraps at a different point).
 var convWiden = map[string]string{"int8": "int16", "uint8": "uint16", "int16": "int32", "uint16": "uint32", "int32": "int64", "uint32": "uint64"}
@@ -892,6 +930,7 @@ var editOps = []siteOp{
 	{"E11-delete-call", "edit", editDeleteCall},
 	{"E12-conversion-width", "edit", editConvType},
 	{"E13-float-literal", "edit", editFloatLit},
+	{"E14-large-int-literal", "edit", editLargeInt},
 }
 
 func applyOne(src string, op siteOp, site int) (Variant, int) {
